@@ -2,7 +2,7 @@
 # usage: tools/import_round2.sh <PROP>...   — takes /tmp/wt/<PROP>/OUT/{patch.diff,demo.rs,meta.json} (written by a sub-agent),
 # confirms it with tools/confirm_seed.sh and stores it as /verif/seeded/<PROP>-c
 for p in "$@"; do
-  d=/tmp/r2/$p/c
+  d=/tmp/r2/$p/${SUFFIX:-c}
   rm -rf /tmp/r2/$p; mkdir -p $d
   cp /tmp/wt/$p/OUT/patch.diff /tmp/wt/$p/OUT/demo.rs /tmp/wt/$p/OUT/meta.json $d/ 2>/dev/null || { echo "$p: deliverables missing"; continue; }
   /verif/tools/confirm_seed.sh /tmp/r2/$p $p 2>&1 | tail -2
